@@ -142,22 +142,93 @@ def tup(ops):
 
 # ------------------------------------------------------------------ pool helpers
 
-def pmap(fn, jobs, procs=16, isolate=False):
-    """fork-based pool. isolate=True: every job in a process forked freshly from the parent (used for shrinking, where a
-    violating implementation may have damaged the shared data objects); otherwise one fork per worker."""
+def _child(conn, fn, job):
+    try:
+        conn.send(("ok", fn(job)))
+    except BaseException as e:  # noqa
+        import traceback
+        conn.send(("exc", "%s: %s\n%s" % (type(e).__name__, e, traceback.format_exc()[-1500:])))
+    finally:
+        conn.close()
+
+
+def frun(fn, jobs, procs=14, timeout=900, retries=2):
+    """run fn(job) for every job, each in a process forked from this one (so a history cannot leave damage behind for the
+    next one), at most `procs` at a time.  A child that dies without an answer (killed by the OOM killer, a crash in
+    native code) or exceeds the timeout is started again; after `retries` failures the run is aborted loudly —
+    a silent hang or a silently missing history would be worse."""
+    from multiprocessing.connection import wait
+    ctx = mp.get_context("fork")
+    results = [None] * len(jobs)
+    tries = [0] * len(jobs)
+    todo = list(range(len(jobs)))[::-1]
+    active = {}                                 # conn -> (index, process, start)
+    while todo or active:
+        while todo and len(active) < procs:
+            i = todo.pop()
+            r, w = ctx.Pipe(duplex=False)
+            p = ctx.Process(target=_child, args=(w, fn, jobs[i]))
+            p.daemon = True
+            p.start()
+            w.close()
+            active[r] = (i, p, time.time())
+        ready = wait(list(active), timeout=5)
+        now = time.time()
+        for r in list(active):
+            i, p, t0 = active[r]
+            done = failed = False
+            if r in ready:
+                try:
+                    tag, val = r.recv()
+                    if tag == "ok":
+                        results[i] = val
+                        done = True
+                    else:
+                        raise RuntimeError("worker raised: " + val)
+                except EOFError:
+                    failed = True               # died without an answer
+            elif now - t0 > timeout:
+                p.kill()
+                failed = True
+            if done or failed:
+                r.close()
+                p.join(5)
+                del active[r]
+            if failed:
+                tries[i] += 1
+                if tries[i] > retries:
+                    raise RuntimeError("a worker process died %d times on job %d" % (tries[i], i))
+                todo.append(i)
+    return results
+
+
+def chunked(fn_name, jobs, n):
+    return [(fn_name, jobs[i::n]) for i in range(n) if jobs[i::n]]
+
+
+def run_many(arg):
+    fn_name, items = arg
+    fn = getattr(L, fn_name)
+    return [fn(x) for x in items]
+
+
+def pmap(fn, jobs, procs=14, isolate=False):
+    """isolate=True: one fork per job; otherwise the jobs are dealt to `procs` forks"""
     if not jobs:
         return []
-    ctx = mp.get_context("fork")
-    n = min(procs, len(jobs))
     if isolate:
-        with ctx.Pool(n, maxtasksperchild=1) as pool:
-            return pool.map(fn, jobs, chunksize=1)
-    with ctx.Pool(n) as pool:
-        return pool.map(fn, jobs, chunksize=1)
+        return frun(fn, jobs, procs)
+    n = min(procs, len(jobs))
+    parts = frun(run_many, chunked(fn.__name__, jobs, n), procs)
+    out = [None] * len(jobs)
+    for i, part in enumerate(parts):
+        for k, r in enumerate(part):
+            out[i + k * n] = r
+    return out
 
 
 def run_chunk(chunk):
-    """histories of one worker; when a history damaged a shared data object the rest of the chunk is run in a fresh fork"""
+    """histories of one worker; when a history damaged a shared data object the rest of the chunk is left to the parent"""
     out = []
     for k, job in enumerate(chunk):
         r = L.run_history(job)
@@ -286,11 +357,9 @@ def main():
         L.REF[job] = d
     nexc = sum(1 for v in L.REF.values() if v.startswith("EXC"))
     run.log("reference predictions: %d (%d raise)" % (len(L.REF), nexc))
-    nw = min(16, len(jobs))
+    nw = min(14, len(jobs))
     chunks = [jobs[i::nw] for i in range(nw)]
-    ctx = mp.get_context("fork")
-    with ctx.Pool(nw) as pool:
-        parts = pool.map(run_chunk, chunks, chunksize=1)
+    parts = frun(run_chunk, chunks, procs=nw, timeout=run.n(900, 3000))
     results = [None] * len(jobs)
     for i, part in enumerate(parts):
         for k, r in enumerate(part):
